@@ -67,8 +67,9 @@ type alphabet struct {
 }
 
 // The declared space is the union, over the families of the tier, of all operation sequences of
-// length <= Depth over the family's alphabet ("wide": every kind of operation, all pool offers;
-// "reorg": the operations that build competing branches, one level deeper).
+// length <= Depth over the family's alphabet ("wide": pool offers x tip blocks x side chains;
+// "reorg": the operations that build competing branches, deeper; "orphan": out-of-order delivery
+// through hold / child / deliver).
 func familiesFor(tier string) (fams []alphabet, budgetS int) {
 	if tier == "thorough" {
 		return []alphabet{
@@ -82,13 +83,15 @@ func familiesFor(tier string) (fams []alphabet, budgetS int) {
 		}, 1700
 	}
 	return []alphabet{
-		{Name: "wide", Subs: []int{0, 1, 2, 3, 5},
+		{Name: "wide", Subs: []int{0, 1, 2, 5},
 			Mine:  []string{"-", "pool", "1", "0+1", "0+5"},
-			ForkK: []int{1}, Fork: []string{"-", "1"}, Ext: []string{"-", "1"},
-			Hold: []string{"-"}, Child: []string{"-"}, Depth: 4},
+			ForkK: []int{1}, Fork: []string{"-", "1"}, Ext: []string{"-", "1"}, Depth: 4},
 		{Name: "reorg", Subs: []int{0, 1},
 			Mine:  []string{"-", "pool", "0+1"},
 			ForkK: []int{1}, Fork: []string{"-", "1"}, Ext: []string{"-", "1"}, Depth: 5},
+		{Name: "orphan", Subs: []int{0, 3},
+			Mine: []string{"-", "pool", "3+4"},
+			Hold: []string{"-", "0"}, Child: []string{"-", "5"}, Depth: 4},
 	}, 100
 }
 
@@ -749,94 +752,127 @@ type famResult struct {
 	samples     [][]string
 }
 
-func explore(r *evid.Run, al alphabet, pool *chainkit.Pool, deadline time.Time, total *counters) famResult {
-	start := time.Now()
-	fr := famResult{Family: al.Name, Alphabet: al, Exhaustive: true, OpKinds: map[string]int{}, Noops: map[string]int{}}
+type explorer struct {
+	al       alphabet
+	fr       famResult
+	seen     map[string]bool
+	frontier []state
+	depth    int
+	start    time.Time
+	finished bool
+}
+
+func newExplorer(r *evid.Run, al alphabet) *explorer {
+	e := &explorer{al: al, start: time.Now(), seen: map[string]bool{}}
+	e.fr = famResult{Family: al.Name, Alphabet: al, Exhaustive: true, OpKinds: map[string]int{}, Noops: map[string]int{}}
 	root := run(&al, nil, false)
 	root2 := run(&al, nil, false)
-	fr.Execs = 2
+	e.fr.Execs = 2
 	if root.Fail != nil {
 		r.Violate(root.Fail.Sig, root.Fail.What, map[string]interface{}{"history": []string{}})
-		fr.Exhaustive = false
-		fr.Cap = "root state violates an oracle"
-		return fr
+		e.fr.Exhaustive = false
+		e.fr.Cap = "root state violates an oracle"
+		e.finished = true
+		return e
 	}
 	if root.Digest != root2.Digest {
 		evid.Fatalf("C06: two fresh nodes disagree on the root digest")
 	}
-	seen := map[string]bool{root.Digest: true}
-	frontier := []state{{Hist: []string{}, Digest: root.Digest}}
-	fr.States = 1
-	fr.PerDepth = []int{1}
-	for depth := 0; depth < al.Depth && len(frontier) > 0; depth++ {
-		if time.Now().After(deadline) {
-			fr.Exhaustive = false
-			fr.Cap = fmt.Sprintf("time budget reached before depth %d", depth+1)
-			break
+	e.seen[root.Digest] = true
+	e.frontier = []state{{Hist: []string{}, Digest: root.Digest}}
+	e.fr.States = 1
+	e.fr.PerDepth = []int{1}
+	return e
+}
+
+// level expands the current frontier by one operation.
+func (e *explorer) level(r *evid.Run, pool *chainkit.Pool, deadline time.Time, total *counters) {
+	if e.finished {
+		return
+	}
+	al, fr := e.al, &e.fr
+	if e.depth >= al.Depth || len(e.frontier) == 0 {
+		e.finished = true
+		return
+	}
+	t0 := time.Now()
+	if time.Now().After(deadline) {
+		fr.Exhaustive = false
+		fr.Cap = fmt.Sprintf("time budget reached before depth %d", e.depth+1)
+		e.finished = true
+		return
+	}
+	frontier := e.frontier
+	reqs := make([]interface{}, len(frontier))
+	for i, st := range frontier {
+		reqs[i] = request{Al: al, Hist: st.Hist, Digest: st.Digest}
+	}
+	outs, err := pool.Map(reqs, deadline)
+	if err != nil {
+		evid.Fatalf("C06: %v", err)
+	}
+	var next []state
+	cut := false
+	byFrom := map[int][]transOut{}
+	for i, raw := range outs {
+		if raw == nil {
+			cut = true
+			continue
 		}
-		reqs := make([]interface{}, len(frontier))
-		for i, st := range frontier {
-			reqs[i] = request{Al: al, Hist: st.Hist, Digest: st.Digest}
+		var wo workerOut
+		if err := json.Unmarshal(raw, &wo); err != nil {
+			evid.Fatalf("C06: worker output: %v", err)
 		}
-		outs, err := pool.Map(reqs, deadline)
-		if err != nil {
-			evid.Fatalf("C06: %v", err)
+		if wo.Err != "" {
+			evid.Fatalf("C06: %s", wo.Err)
 		}
-		var next []state
-		cut := false
-		byFrom := map[int][]transOut{}
-		for i, raw := range outs {
-			if raw == nil {
-				cut = true
+		fr.Execs += int64(wo.Execs)
+		byFrom[i] = wo.Trans
+	}
+	// merge in frontier order: deterministic state numbering and shortest-history choice
+	for i := range frontier {
+		for _, t := range byFrom[i] {
+			fr.Transitions++
+			total.add(t.C)
+			kind := strings.SplitN(t.Op, ":", 2)[0]
+			fr.OpKinds[kind]++
+			h := append(append([]string{}, frontier[i].Hist...), t.Op)
+			if t.Fail != nil {
+				r.Violate(t.Fail.Sig, t.Fail.What, map[string]interface{}{"family": al.Name, "history": h})
 				continue
 			}
-			var wo workerOut
-			if err := json.Unmarshal(raw, &wo); err != nil {
-				evid.Fatalf("C06: worker output: %v", err)
+			if t.Digest == frontier[i].Digest {
+				fr.Noops[kind]++
 			}
-			if wo.Err != "" {
-				evid.Fatalf("C06: %s", wo.Err)
-			}
-			fr.Execs += int64(wo.Execs)
-			byFrom[i] = wo.Trans
-		}
-		// merge in frontier order: deterministic state numbering and shortest-history choice
-		for i := range frontier {
-			for _, t := range byFrom[i] {
-				fr.Transitions++
-				total.add(t.C)
-				kind := strings.SplitN(t.Op, ":", 2)[0]
-				fr.OpKinds[kind]++
-				h := append(append([]string{}, frontier[i].Hist...), t.Op)
-				if t.Fail != nil {
-					r.Violate(t.Fail.Sig, t.Fail.What, map[string]interface{}{"family": al.Name, "history": h})
-					continue
-				}
-				if t.Digest == frontier[i].Digest {
-					fr.Noops[kind]++
-				}
-				if !seen[t.Digest] {
-					seen[t.Digest] = true
-					fr.States++
-					next = append(next, state{Hist: h, Digest: t.Digest})
-				}
+			if !e.seen[t.Digest] {
+				e.seen[t.Digest] = true
+				fr.States++
+				next = append(next, state{Hist: h, Digest: t.Digest})
 			}
 		}
-		fr.PerDepth = append(fr.PerDepth, len(next))
-		frontier = next
-		if cut {
-			fr.Exhaustive = false
-			fr.Cap = fmt.Sprintf("time budget reached while expanding depth %d", depth+1)
-			break
-		}
-		fr.DepthDone = depth + 1
-		fmt.Printf("%s depth %d: %d new states, %d transitions, %d executions, %.0fs\n", al.Name, fr.DepthDone, len(next), fr.Transitions, fr.Execs, time.Since(start).Seconds())
 	}
-	for i := 0; i < len(frontier) && len(fr.samples) < 3; i += 1 + len(frontier)/3 {
-		fr.samples = append(fr.samples, frontier[i].Hist)
+	fr.PerDepth = append(fr.PerDepth, len(next))
+	e.frontier = next
+	fr.WallS += float64(int(time.Since(t0).Seconds()*10)) / 10
+	if cut {
+		fr.Exhaustive = false
+		fr.Cap = fmt.Sprintf("time budget reached while expanding depth %d", e.depth+1)
+		e.finished = true
+		return
 	}
-	fr.WallS = float64(int(time.Since(start).Seconds()*10)) / 10
-	return fr
+	e.depth++
+	fr.DepthDone = e.depth
+	fmt.Printf("%s depth %d: %d new states, %d transitions, %d executions, +%.0fs\n", al.Name, fr.DepthDone, len(next), fr.Transitions, fr.Execs, time.Since(t0).Seconds())
+	if e.depth >= al.Depth || len(next) == 0 {
+		e.finished = true
+	}
+}
+
+func (e *explorer) result() famResult {
+	for i := 0; i < len(e.frontier) && len(e.fr.samples) < 3; i += 1 + len(e.frontier)/3 {
+		e.fr.samples = append(e.fr.samples, e.frontier[i].Hist)
+	}
+	return e.fr
 }
 
 func main() {
@@ -886,7 +922,7 @@ func main() {
 	if err != nil {
 		evid.Fatalf("C06: pool: %v", err)
 	}
-	deadline := time.Now().Add(time.Duration(budget) * time.Second)
+	deadline := time.Now().Add(chainkit.Budget(budget))
 	var total counters
 	var results []famResult
 	var states, transitions, execs int64
@@ -894,8 +930,25 @@ func main() {
 	capNote := []string{}
 	depthDone := 1 << 30
 	samples := []interface{}{}
+	// iterative deepening across families: every family completes depth d before any goes to
+	// d+1, so a time cap only ever cuts the deepest levels
+	var exps []*explorer
+	maxDepth := 0
 	for _, al := range fams {
-		fr := explore(r, al, pool, deadline, &total)
+		exps = append(exps, newExplorer(r, al))
+		if al.Depth > maxDepth {
+			maxDepth = al.Depth
+		}
+	}
+	for d := 0; d < maxDepth; d++ {
+		for _, e := range exps {
+			if e.depth == d {
+				e.level(r, pool, deadline, &total)
+			}
+		}
+	}
+	for _, e := range exps {
+		fr := e.result()
 		results = append(results, fr)
 		states += fr.States
 		transitions += fr.Transitions
